@@ -134,6 +134,10 @@ func sameMsg(a, b *pwr.SyncOp) bool {
 }
 
 func c13One(env *Env, m *wvlib.Model, c *C13Case) {
+	if c.Shape == "proto" {
+		c13Proto(env, m, c)
+		return
+	}
 	sizes := c.Sizes
 	if sizes == nil {
 		sizes = c13Sizes(c)
@@ -449,6 +453,13 @@ func runC13(env *Env) {
 			}
 			cases = append(cases, &C13Case{Seed: seed, Comp: comp, Shape: sh})
 		}
+	}
+	nProto := 60
+	if env.Thorough() {
+		nProto = 1500
+	}
+	for i := 0; i < nProto; i++ {
+		cases = append(cases, &C13Case{Seed: rng.Next(), Comp: Comp{"none", 0}, Shape: "proto"})
 	}
 	models := startModels(env)
 	wvlib.ParallelDo(len(cases), env.Workers, func(i int) {
